@@ -6,9 +6,63 @@ V = os.path.abspath(os.path.join(os.path.dirname(__file__), '..'))
 
 # id -> (technique, level text, level note, design ref)
 CHECKS = {
- "C01": ("PBT (proptest): differential against a transliterated Blackman-Vigna reference model, output word and successor state",
-         "Generated-input search: for each of the 15 generators, thousands of seeds from edge-biased classes and step counts; every output and the successor state are compared with an independent transliteration of the published C sources. Faults in this branch-free word arithmetic are dense, so a surviving fault would have to be confined to a vanishing set of states.",
-         "Trusts refmodel::vigna (validated at start-up against the published vectors and an independent Python model) and the crate's own == for the successor-state comparison.", "3/C01"),
+ "C01": ("PBT (proptest): differential against a transliterated Blackman-Vigna reference model (output word and successor state)",
+         "Generated-input search: for each of the 15 generators thousands of seeds from edge-biased classes and step counts; every output and the successor state are compared with an independent transliteration of the published C sources. Faults in this branch-free word arithmetic are dense in the input space; a fault confined to a vanishing set of states would be missed.",
+         "Trusts refmodel::vigna (validated at start-up against the published vectors and an independent Python model) and the crate's == for the successor-state comparison.", "3/C01"),
+ "C02": ("PBT (proptest): differential against a spec-level HC-128 model (array form, no unrolling), two routes (Rng, Core::generate)",
+         "Generated 32-byte seeds (incl. one non-zero byte at every position, key-only/IV-only, distinct words) x depths across P/Q phases, buffer refills and table wraps; every keystream word compared with Wu's specification.",
+         "Trusts refmodel::hc128 (validated on the three vectors of the paper and 2200-word streams of the Python model).", "3/C02"),
+ "C03": ("PBT (proptest): differential against a transliteration of Jenkins' rand.c / isaac64.c, two routes (Rng, Core::generate)",
+         "Generated seeds and seed_from_u64(0) x depths over >= 3 blocks so every block index and several refills are compared word by word.",
+         "Trusts refmodel::isaac (constants mixed at run time; validated against crate vectors and the Python model).", "3/C03"),
+ "C04": ("PBT (proptest): differential against Marsaglia's xor128 (outputs and state)",
+         "Generated non-zero seeds x step counts, every next_u32 and the successor state compared with xor128.",
+         "Trusts the 6-line xor128 model and the crate's ==.", "3/C04"),
+ "C05": ("PBT (proptest), stateful: operation histories vs a projection model fed by a native-width twin; libFuzzer target fz_hist (thorough)",
+         "Histories of next_u32/next_u64/fill_bytes(n) from every buffer index for 19 types + scripted JitterRng; each returned value is predicted from the twin's native word stream by projection rules written from the statement; final re-synchronisation catches skipped/repeated words.",
+         "The native stream comes from a twin instance of the same type (construction determinism is C10/C19's subject). The zero-length-fill case of Isaac64Rng is two-valued because the statement is silent.", "4/C05"),
+ "C06": ("PBT (proptest) + GF(2) algebra: jump()/long_jump() vs T^(2^(n/2)), T^(2^(3n/4)) with T extracted from the running code; all basis states + generated states, linearity, metamorphic commutation",
+         "The step matrix T is read off the real code on the n basis states; J and L by repeated squaring; jump/long_jump are executed on all basis states and on generated states and must land on J*s / L*s; linearity of jump on generated pairs extends the basis result to all states; model-free commutation relations in addition.",
+         "Assumes GF(2)-linearity of next and jump outside the sampled states (BLR-sampled); state observation through validated serde images.", "5/C06"),
+ "C07": ("PBT (proptest) + GF(2) algebra: extracted step matrix, rank, Berlekamp-Massey minimal polynomial of real state sequences, primitivity via the full factorisation of 2^n-1; cycle probes",
+         "Generated states validate that the code's step is the linear map T (linearity, agreement, T^k vs k real steps); rank n gives bijectivity; a degree-n primitive minimal polynomial gives a single cycle of length 2^n-1 on the non-zero states. Thorough adds the independent matrix-order route.",
+         "Assumes linearity outside the sampled states and primality of the 13 hard-coded factors (products verified at start-up).", "5/C07"),
+ "C08": ("PBT (proptest): validity predicates over every constructor with zero/near-zero seeds, special u64s and zero-block sources; near-equal seed pairs",
+         "Every seeding path of the 15 linear types with hostile inputs: result != zero-state generator, documented replacement, verbatim use, zero blocks remapped/redrawn with exact byte accounting, distinct seeds give != generators.",
+         "Zero-state generator and state images through the public serde implementations.", "5/C08"),
+ "C09": ("PBT (proptest) with fault injection: seeding routes vs independently computed documented expansions; byte-scripted and failing sources",
+         "seed_from_u64 for generated x against SplitMix64/PCG32/ISAAC-key models; from_rng/try_from_rng against the model built from exactly the bytes handed out with exact byte counts; failing sources at every position must propagate exactly their error.",
+         "Expansion models are independent re-implementations of the documented schemes.", "5/C09"),
+ "C10": ("PBT (proptest), stateful: clone/== congruence over histories, near-equal and serde-crafted pairs, Hc128 position clause, public cores",
+         "clone == original and identical futures incl. jumps; for pairs built to be (nearly) equal: a == b implies identical continuation and preserved equality; Hc128Rng at different positions of a block must be !=.",
+         "Crafted states avoid BlockRng's index/half_used bookkeeping (states no generator can serialize).", "4/C10"),
+ "C11": ("PBT (proptest), stateful round-trip: serde snapshot (bincode, JSON) at generated points vs original vs never-serialized twin",
+         "Snapshot at every buffer index / half-used state / after jumps; restored, original and twin must agree on a generated continuation that crosses refills; restored == original.",
+         "Two serde back-ends (bincode, serde_json).", "4/C11"),
+ "C12": ("PBT (proptest), stateful: JitterRng over scripted timers vs a spec-level Jitterentropy 2.1.0 model (values and timer-read counts); libFuzzer target fz_jitter (thorough)",
+         "The harness owns the timer: delta programs incl. stuck patterns and hostile deltas x histories of all public calls; value and cumulative read count compared after every call.",
+         "Trusts refmodel::jitter (written from the documentation in feedback form; validated against the Python model).", "6/C12"),
+ "C13": ("PBT (proptest): constructive 400-probe timers aimed at every decision boundary vs a validity predicate; libFuzzer target fz_timer (thorough)",
+         "Timers are constructed to hit every mean 0..40, 2^k+-1 and each failure class around its threshold; the outcome must satisfy the statement's predicate (Ok only if no condition holds, 1<=r<=128, r*bitlen(mean)>=128, set_rounds(r) ok; Err only naming a condition that holds).",
+         "mean is accepted with or without the priming term; zeros are injected only at inspected readings.", "6/C13"),
+ "C14": ("PBT (proptest) crash oracle in an overflow-checked build (catch_unwind + recording panic hook); libFuzzer targets with ASan (thorough)",
+         "All generators, constructors, sources, hostile lengths/histories/timers executed with overflow checks and debug assertions on; any panic outside the harness is a violation keyed on (message, file).",
+         "Build profile of the harness has overflow-checks and debug-assertions on; set_rounds(0) excluded by construction.", "4/C14"),
+ "C15": ("PBT (proptest) + GF(2) algebra through cfg(rngs_verif) hooks: affinity triples, rank of extracted 64x64 maps, differential and birthday collision search",
+         "Fold (in pool and in time), stir and whole collections observed on the real code; affine + rank 64 decides bijectivity; model-free collision searches cover non-affine redesigns. Only an executed collision is reported.",
+         "Assumes affinity outside sampled triples; hooks only read/set the pool and call the private stir.", "5/C15"),
+ "C16": ("PBT (proptest), stateful: twin relations R1-R3 and read-count bookkeeping R4 over histories with clones on scripted timers",
+         "u32;u32 == halves of u64 with zero reads in the second call; a pending half never influences a later output; a clone's first output is a fresh collection; every needed collection reads the timer >= rounds times.",
+         "fill(n<=4) after next_u32 takes the pending half (composition rule).", "6/C16"),
+ "C17": ("PBT (proptest): differential Debug text between different seeds under the same history + token scan for state/output words",
+         "Pairs of generators with different seeds/timers and the same history must print identical {:?}/{:#?} after every operation; no numeric token may equal a state, buffered or recent output word >= 2^20.",
+         "The text is not pinned; buffered words observed as upcoming outputs of a clone.", "4/C17"),
+ "C18": ("cross-configuration differential: one proptest-generated corpus replayed by vdigest built in {O0,O3} x {checks on,off} x {serde on,off}",
+         "6900 (thorough 69000) generated cases over all generator types, cores and scripted JitterRng replayed in 4 (8) build configurations; digests must agree line by line; a disagreement is delta-debugged with the two binaries as oracle.",
+         "Only x86-64 is buildable here.", "6/C18"),
+ "C19": ("PBT (proptest) with a harness-owned scheduler over real OS threads + unsynchronised parallel runs + compiled Send/Sync probe",
+         "Generated multi-instance scenarios with generated interleavings and thread migrations; every instance's trace must equal its solo replay before and after; free-running parallel groups; static Send+Sync assertions compiled against the tree.",
+         "Interleavings inside one operation are not enumerated; JITTER_ROUNDS is outside the deterministic oracle.", "4/C19"),
 }
 NOT_YET = "check not built yet (work in progress; see DESIGN.md section 10 for the order of work)"
 
@@ -52,6 +106,10 @@ m = {
  "engines": [
    {"name": "vcheck", "path": "harness/", "serves_properties": [c["property_id"] for c in checks],
     "kind_free_text": "proptest 1.11 driven from a binary (fixed RNG seed from VERIF_SEED, shrinking, JSON replay files), reference models in harness/src/refmodel, GF(2) toolkit, scripted timers/sources"},
+   {"name": "vdigest", "path": "harness/vdigest/", "serves_properties": ["C18"],
+    "kind_free_text": "corpus replayer built in 8 profile/feature configurations; digests compared by vcheck"},
+   {"name": "sendsync_probe", "path": "harness/sendsync_probe/", "serves_properties": ["C19"],
+    "kind_free_text": "static Send/Sync assertions compiled against the current tree"},
  ],
  "checks": checks,
  "not_applicable": na,
